@@ -57,10 +57,18 @@ static void pp_mil_k12(fp12_t r, ep2_t *t, ep2_t *q, ep_t *p, int m, bn_t a) {
 	int8_t s[RLC_FP_BITS + 1];
 
 	if (m == 0) {
+		RLC_FREE(_p);
+		RLC_FREE(_q);
 		return;
 	}
 
 	fp12_null(l);
+	if (_p != NULL && _q != NULL) {
+		for (j = 0; j < m; j++) {
+			ep_null(_p[j]);
+			ep2_null(_q[j]);
+		}
+	}
 
 	RLC_TRY {
 		fp12_new(l);
@@ -68,8 +76,6 @@ static void pp_mil_k12(fp12_t r, ep2_t *t, ep2_t *q, ep_t *p, int m, bn_t a) {
 			RLC_THROW(ERR_NO_MEMORY);
 		}
 		for (j = 0; j < m; j++) {
-			ep_null(_p[j]);
-			ep2_null(_q[j]);
 			ep_new(_p[j]);
 			ep2_new(_q[j]);
 			ep2_copy(t[j], q[j]);
@@ -124,9 +130,11 @@ static void pp_mil_k12(fp12_t r, ep2_t *t, ep2_t *q, ep_t *p, int m, bn_t a) {
 	}
 	RLC_FINALLY {
 		fp12_free(l);
-		for (j = 0; j < m; j++) {
-			ep_free(_p[j]);
-			ep2_free(_q[j]);
+		if (_p != NULL && _q != NULL) {
+			for (j = 0; j < m; j++) {
+				ep_free(_p[j]);
+				ep2_free(_q[j]);
+			}
 		}
 		RLC_FREE(_p);
 		RLC_FREE(_q);
@@ -526,16 +534,21 @@ void pp_map_sim_oatep_k12(fp12_t r, const ep_t *p, const ep2_t *q, int m) {
 	bn_t a;
 	int i, j;
 
+	bn_null(a);
+	if (_p != NULL && _q != NULL && t != NULL) {
+		for (i = 0; i < m; i++) {
+			ep_null(_p[i]);
+			ep2_null(_q[i]);
+			ep2_null(t[i]);
+		}
+	}
+
 	RLC_TRY {
-		bn_null(a);
 		bn_new(a);
 		if (_p == NULL || _q == NULL || t == NULL) {
 			RLC_THROW(ERR_NO_MEMORY);
 		}
 		for (i = 0; i < m; i++) {
-			ep_null(_p[i]);
-			ep2_null(_q[i]);
-			ep2_null(t[i]);
 			ep_new(_p[i]);
 			ep2_new(_q[i]);
 			ep2_new(t[i]);
@@ -587,10 +600,12 @@ void pp_map_sim_oatep_k12(fp12_t r, const ep_t *p, const ep2_t *q, int m) {
 	}
 	RLC_FINALLY {
 		bn_free(a);
-		for (i = 0; i < m; i++) {
-			ep_free(_p[i]);
-			ep2_free(_q[i]);
-			ep2_free(t[i]);
+		if (_p != NULL && _q != NULL && t != NULL) {
+			for (i = 0; i < m; i++) {
+				ep_free(_p[i]);
+				ep2_free(_q[i]);
+				ep2_free(t[i]);
+			}
 		}
 		RLC_FREE(_p);
 		RLC_FREE(_q);
